@@ -14,7 +14,7 @@ func init() {
 	register("C02",
 		"Structural necessary conditions of C02 decided from /repo's SSA: (max) AdjustMaxIfNecessary/IfPossible of both counter widths are interpreted over the three orderings of (old,arg) and must leave the larger value stored, return true only if arg>=old and leave the store unchanged when returning false; (effects) max_commit_size, max_parent_count, max_tree_entries and max_blob_size each receive exactly one MAX edge from the quantity the statement names (commit bytes, number of parent headers, per-tree entry counter, size field of the batch header) and nothing else, and the parent list is appended to exactly in the arm of the header literal `parent`; (uncond) each of those MAX updates executes exactly once on every path from the object's registration, so the position of the maximal object in the enumeration is irrelevant. Not decided: nothing numeric beyond the operator semantics.",
 		[]string{"field-based heap model", "go/ssa models the source faithfully"},
-		ruleC02Max, ruleC02Effects, ruleC02Uncond)
+		ruleC02Max, ruleC02Effects, ruleC02Uncond, ruleC02SizeSource)
 	register("C03",
 		"Structural necessary conditions of C03 decided from /repo's SSA: (order-flag) rev-list is run with one of --date-order/--topo-order/--author-date-order (no parent before all of its children); (reverse) the commit list is only appended in enumeration order, requested and read back by descending loops, and the reader compares each returned id with the list element of the same index; (no-silent-miss) the lookups of a parent's / tree's size panic when the size is absent instead of returning zero; (effects) per-commit depth = MAX over the parent list (exactly one MAX per parent, operand = the looked-up size of that parent) then +1 exactly once; max_history_depth = MAX of it; per-tag depth starts at 1 and adds the referent's depth only under referent type `tag`, identically in the immediate and the listener branch; max_tag_depth = MAX of it. Not decided: git's ordering guarantee itself, the equality with the longest chain on concrete DAGs.",
 		[]string{"git rev-list --date-order/--topo-order/--author-date-order never shows a parent before all of its children", "field-based heap model"},
@@ -220,7 +220,7 @@ func ruleC03Reverse(c *Ctx) {
 		return
 	}
 	// append-only
-	stores := c.cellStores(cl.Cell)
+	stores := c.listDefs(cl.Var)
 	if len(stores) == 1 && stores[0] == cl.Append {
 		c.hold("C03.reverse", "append-only", cl.Append.Pos(), "the commit list is written only by the append in the header loop")
 	} else {
@@ -959,3 +959,13 @@ func pendingWidth(c *Ctx, rule string) {
 }
 
 func typeNameOfVarOwner(v *types.Var) string { return v.Pkg().Name() }
+
+// ruleC02SizeSource: the blob size that enters the maximum is the header's
+// size parsed at full width and clamped, never wrapped: a wrapped size makes
+// a smaller blob the reported maximum. The clause is C05.siblings, reported
+// here under C02's name.
+func ruleC02SizeSource(c *Ctx) {
+	c.RuleAlias = map[string]string{"C05.siblings": "C02.size-source"}
+	defer func() { c.RuleAlias = nil }()
+	ruleC05Siblings(c)
+}
